@@ -104,7 +104,17 @@ json handle(Ctx &c, const json &rec) {
         else if (kind == "section") { TRY(w.s.getSection(idx(w.s.sectionCount()))); TRY(w.s.getProperty(idx(w.s.propertyCount()))); }
         else if (kind == "source") { TRY(w.src.getSource(idx(w.src.sourceCount()))); }
         else if (kind == "array") { TRY(w.a.getSource((size_t) idx(w.a.sourceCount()))); TRY(w.a.getDimension(idx(w.a.dimensionCount()) + 1)); TRY(w.a.getDimension(0)); }
-        else if (kind == "dim") { nix::RangeDimension rd = w.a.getDimension(2).asRangeDimension(); TRY(rd.tickAt(idx(4))); TRY(rd.axis(2, idx(4))); TRY(rd.axis(idx(4), 0)); nix::SampledDimension sd = w.a.getDimension(1).asSampledDimension(); TRY(sd.positionAt(BIG)); if (var != "max") TRY(sd.axis(idx(3), 1)); }
+        else if (kind == "dim") { nix::RangeDimension rd = w.a.getDimension(2).asRangeDimension(); TRY(rd.tickAt(idx(4))); TRY(rd.axis(2, idx(4))); TRY(rd.axis(idx(4), 0)); nix::SampledDimension sd = w.a.getDimension(1).asSampledDimension(); TRY(sd.positionAt(BIG)); if (var != "max") TRY(sd.axis(idx(3), 1));
+            // a data-frame dimension whose column index is the number of columns (or beyond): appending may throw or not, every getter
+            // and a slice through the dimension must then throw or return
+            try {
+                nix::DataArray x = w.b.createDataArray("dfdim", "t", nix::DataType::Double, nix::NDSize({2}));
+                nix::DataFrameDimension fd = x.appendDataFrameDimension(w.df, (unsigned) idx(w.df.columns().size()));
+                TRY(fd.unit()); TRY(fd.label()); TRY(fd.columnDataType()); TRY(fd.size()); TRY(fd.columnIndex());
+                TRY(fd.indexOf(0.0, nix::PositionMatch::GreaterOrEqual));
+                TRY(nix::util::dataSlice(x, {0.0}, {1.0}));
+                nix::Dimension gd = x.getDimension(1); TRY(gd.asDataFrameDimension().unit());
+            } catch (const std::exception &) {} }
         else if (kind == "frame") { TRY(w.df.readRow(idx(w.df.rows()))); TRY(w.df.readCell(idx(w.df.rows()), 0u)); TRY(w.df.readCell(0, (unsigned) idx(2))); TRY(w.df.colName((unsigned) idx(2))); std::vector<double> v; TRY(w.df.readColumn((unsigned) 0, v, true, idx(w.df.rows()) + 1)); }
         else if (kind == "tag") { TRY(w.t.getReference((size_t) idx(w.t.referenceCount()))); TRY(w.t.getFeature(idx(w.t.featureCount()))); TRY(w.t.taggedData((size_t) idx(w.t.referenceCount()))); TRY(w.t.featureData((size_t) idx(w.t.featureCount()))); TRY(nix::util::featureData(w.t, idx(w.t.featureCount()))); }
         else if (kind == "mtag") { TRY(w.mt.getReference((size_t) idx(w.mt.referenceCount()))); TRY(w.mt.taggedData((size_t) idx(2), (size_t) 0)); TRY(w.mt.taggedData((size_t) 0, (size_t) idx(1))); std::vector<nix::ndsize_t> ii = {0, idx(2)}; TRY(nix::util::taggedData(w.mt, ii, w.a)); TRY(nix::util::featureData(w.mt, idx(2), (nix::ndsize_t) 0)); }
